@@ -1273,6 +1273,9 @@ fn classify(e: &passage_protocol::Error) -> RunResult {
         E::ArrayConversionFailed => "ArrayConversionFailed".into(),
         E::Nbt(_) => "Nbt".into(),
         E::AdapterError(_) => "AdapterError".into(),
+        // (a variant this harness does not know: the build must not depend on the error type being closed)
+        #[allow(unreachable_patterns)]
+        other => format!("{other:?}").split(['(', ' ', '{']).next().unwrap_or("Other").to_string(),
     };
     RunResult::Err { kind, text: e.to_string() }
 }
